@@ -95,6 +95,24 @@ func c20ThresholdCell(r *vbase.Result, scheme string, cache uint, n int) {
 	w.StoreAll(blk)
 	genQC := hotstuff.NewQuorumCert(nil, 0, hotstuff.GetGenesis().Hash())
 	verifier := w.M(hotstuff.ID(n)) // any member
+	// q entries from only q-1 members: the first signer listed again at the end (not adjacent to itself)
+	if scheme != "bls12" && q >= 3 {
+		var ps []piece
+		for _, id := range IDs(n)[:q-1] {
+			ps = append(ps, piece{Claim: id, Src: id, Msg: blk.ToBytes()})
+		}
+		ps = append(ps, piece{Claim: 1, Src: 1, Msg: blk.ToBytes()})
+		err := verifier.Auth.VerifyQuorumCert(hotstuff.NewQuorumCert(w.assemble(ps, nil, 0), blk.View(), blk.Hash()))
+		r.Eval(true, fmt.Sprintf("%s/%d/%d/QC/padded", scheme, cache, n))
+		r.Obs("verifications", 1)
+		if err == nil {
+			r.Violate(vbase.Sig("threshold", "type", "QC", "kind", "accepts-below-quorum", "scheme", scheme),
+				fmt.Sprintf("QC with %d entries from only %d distinct members of n=%d (the first signer repeated at the end; reference q=%d, scheme %s, cache %d) was accepted", q, q-1, n, q, scheme, cache),
+				map[string]any{"scheme": scheme, "cache": cache, "n": n, "k": q - 1, "type": "QC", "padded": true})
+		} else {
+			r.Obs("rejected", 1)
+		}
+	}
 	ks := []int{q - 1, q, n}
 	for _, k := range ks {
 		if k < 1 {
